@@ -512,13 +512,19 @@ func BackSlice(v ssa.Value, opts SliceOpts) map[ssa.Value]bool {
 			visit(v.X)
 		case *ssa.IndexAddr:
 			visit(v.X)
-			visit(v.Index)
+			if !opts.NoMemory {
+				visit(v.Index)
+			}
 		case *ssa.Index:
 			visit(v.X)
-			visit(v.Index)
+			if !opts.NoMemory {
+				visit(v.Index)
+			}
 		case *ssa.Lookup:
 			visit(v.X)
-			visit(v.Index)
+			if !opts.NoMemory {
+				visit(v.Index)
+			}
 		case *ssa.Slice:
 			visit(v.X)
 		case *ssa.Next:
